@@ -481,10 +481,10 @@ def directed_overlap(ctx, rng, kind="add"):
     return c, v, None
 
 
-def directed_add_with_backlog(ctx, rng):
+def directed_add_with_backlog(ctx, rng, n0=3):
     """`add` accepted while the leader holds uncommitted entries and cannot reach the other voter: the new, empty node
     must not count for those entries."""
-    c = Cluster(ctx, rng, 3)
+    c = Cluster(ctx, rng, n0)
     sim = c.sim
     L = sim.elect()
     sim.run(4)
@@ -549,12 +549,13 @@ def run(ctx):
             for x in v:
                 x.setdefault("replay", {"directed": "snapshot", "grow": g, "seed": ctx.seed, "trace": c.sim.trace[-40:]})
             viols += v
-    c, v, note = directed_add_with_backlog(ctx, rng)
-    n += 1
-    cov.update(c.cov)
-    for x in v:
-        x.setdefault("replay", {"directed": "add_with_backlog", "seed": ctx.seed, "trace": c.sim.trace[-30:]})
-    viols += v
+    for n0 in (2, 3, 4):
+        c, v, note = directed_add_with_backlog(ctx, rng, n0)
+        n += 1
+        cov.update(c.cov)
+        for x in v:
+            x.setdefault("replay", {"directed": "add_with_backlog", "n0": n0, "seed": ctx.seed, "trace": c.sim.trace[-30:]})
+        viols += v
     for kind in ("add", "rem"):
         c, v, note = directed_overlap(ctx, rng, kind)
         n += 1
